@@ -3,6 +3,7 @@ import sys
 sys.setrecursionlimit(30000)
 import random, copy
 from .common import *
+from .common import F_CONST
 from . import patchgen as G
 
 AREA = 'patch'
@@ -23,6 +24,18 @@ def corpus(ctx): return load_corpus(ctx['verif'], 'C16')
 def case(cs, doc, patch, tags):
     line = 'applypatch %d %s %s' % (cs, ' '.join(value_tokens(doc)), ' '.join(value_tokens(patch)))
     return Case(line, {'tags': tags + (['cs'] if cs else ['ci']), 'doc': doc, 'patch': patch, 'cs': cs})
+
+def constified(c, rng, tag='constant-keys'):
+    """the same case with cJSON_StringIsConst on keys (as if the members had been added with cJSON_AddItemToObjectCS): the flag says who owns
+    the key, it is not part of the JSON value, so status and resulting document are the same; the harness backs such keys by caller memory"""
+    tok = c.line.split(' '); i = 2
+    while i + 6 < len(tok):
+        if tok[i] == 'N':
+            if tok[i + 5] != '-' and rng.random() < 0.7: tok[i + 1] = str(int(tok[i + 1]) | F_CONST)
+            i += 7
+        else: i += 1
+    info = dict(c.info); info['tags'] = list(info.get('tags', [])) + [tag]
+    return Case(' '.join(tok), info)
 
 def index_tokens(n):
     return list(dict.fromkeys(['0', str(max(n - 1, 0)), str(n), str(n + 1), '-', '01', '00', '1~1x', '0~0', '', '1e0', '-1', '18446744073709551616', '4294967296']))
@@ -158,6 +171,9 @@ def generate(ctx):
         for patch, tags in junk_stream(rng, doc, quick):
             cs = 1 if rng.random() < 0.7 else 0
             cases.append(case(cs, doc, patch, tags))
+    # patch documents and documents whose members were added with cJSON_AddItemToObjectCS (constant keys are borrowed memory)
+    for c in rng.sample(cases, min(len(cases), 600 if quick else 3000)) + [c for c in cases if 'root' in c.info['tags']]:
+        cases.append(constified(c, rng))
     # documents nested about as deep as the parser accepts: operations at the bottom, and test on deep values
     if ctx.get('seed_index', 0) == 0:
         NL = nesting_limit(ctx['repo'])
